@@ -271,6 +271,7 @@ func (db *DB) Get(key []byte) ([]byte, error) {
 	// 从内存中获取 key 对应的索引数据
 	// 索引已能确保线程安全
 	logRecordPos := db.index.Get(key)
+	verifSched("get.indexed")
 	if logRecordPos == nil {
 		return nil, ErrKeyNotFound
 	}
